@@ -15,4 +15,11 @@ if ! cargo build --release --offline >"$LOG" 2>&1; then
   tail -30 "$LOG" >&2
   exit 2
 fi
-exec "$VERIF_DIR/harness/target/release/vcheck" "$PROP" --tier "$TIER" --seed "${VERIF_SEED:-0}"
+"$VERIF_DIR/harness/target/release/vcheck" "$PROP" --tier "$TIER" --seed "${VERIF_SEED:-0}"
+RC=$?
+# thorough tier: coverage-guided libFuzzer campaigns on the byte-level surfaces (C14, C08) and on
+# byte-decoded small scenarios (C01); a crash is a violation, an unavailable fuzz build is only noted
+if [ $RC -eq 0 ] && [ "$TIER" = "thorough" ]; then
+  case "$PROP" in C14|C08|C01) python3 "$VERIF_DIR/tools/fuzz_stage.py" "$PROP" "${VERIF_SEED:-0}" || RC=1 ;; esac
+fi
+exit $RC
